@@ -513,6 +513,8 @@ func checkC03(rep *core.Report) {
 	checkModelKeys(rep, r8)
 	r9 := rep.Rule("R03.9", "the byte reader serves a request for zero octets (empty variable-length values, zero-length elements)", 2)
 	checkReaderAcceptsZero(prog, r9)
+	r10 := rep.Rule("R03.10", "up to three padding octets at the end of a set are not decoded as a record", 1)
+	checkPaddingBound(prog, r10, "ipfix")
 	checkLayoutSeq(prog, r1, "ipfix", "MessageHeader", []specField{{"Version", 2}, {"Length", 2}, {"ExportTime", 4}, {"SequenceNo", 4}, {"DomainID", 4}}, "IPFIX message header (RFC 7011 3.1)")
 	checkLayoutSeq(prog, r1, "ipfix", "SetHeader", []specField{{"SetID", 2}, {"Length", 2}}, "IPFIX set header (RFC 7011 3.3.2)")
 	for _, f := range findFillers(prog, "ipfix", "TemplateHeader") {
@@ -685,6 +687,8 @@ func checkC06(rep *core.Report) {
 	checkModelKeys(rep, r8)
 	r9 := rep.Rule("R06.8", "the byte reader serves a request for zero octets (zero-length elements)", 2)
 	checkReaderAcceptsZero(prog, r9)
+	r10 := rep.Rule("R06.9", "up to three padding octets at the end of a flowset are not decoded as a record", 1)
+	checkPaddingBound(prog, r10, "netflow/v9")
 	checkLayoutSeq(prog, r1, "netflow/v9", "PacketHeader", []specField{{"Version", 2}, {"Count", 2}, {"SysUpTime", 4}, {"UNIXSecs", 4}, {"SeqNum", 4}, {"SrcID", 4}}, "NetFlow v9 packet header (RFC 3954 5.1)")
 	checkLayoutSeq(prog, r1, "netflow/v9", "SetHeader", []specField{{"FlowSetID", 2}, {"Length", 2}}, "flowset header")
 	checkLayoutSeq(prog, r1, "netflow/v9", "TemplateFieldSpecifier", []specField{{"ElementID", 2}, {"Length", 2}}, "field specifier (type, length)")
@@ -1030,5 +1034,99 @@ func checkReaderAcceptsZero(prog *core.Program, rr *core.RuleRun) {
 	}
 	if n == 0 {
 		rr.Undecided("reader:accepts-zero", token.NoPos, "no reader method taking an octet count found")
+	}
+}
+
+// checkPaddingBound (R03.10 / R06.9): a set may end in up to three padding octets (sets are aligned to 4 octets).
+// The record loop's exit test on the octets left in the set (declared length minus octets consumed) is evaluated for
+// 0..3 octets left, where it must stop, and for 5, where it must go on.
+func checkPaddingBound(prog *core.Program, rr *core.RuleRun, rel string) {
+	sd := findSetDecoder(prog, rel)
+	if sd.decodeSet == nil || sd.decodeDat == nil {
+		rr.Undecided(rel+":padding-bound", token.NoPos, "set decoder not found")
+		return
+	}
+	fn := sd.decodeSet
+	var loop *core.Loop
+	allInstrs(fn, func(ins ssa.Instruction) {
+		if c, ok := ins.(*ssa.Call); ok && c.Common().StaticCallee() == sd.decodeDat {
+			loop = core.LoopOf(fn, c)
+		}
+	})
+	if loop == nil {
+		rr.Undecided(core.FuncName(fn)+":padding-bound", fn.Pos(), "record loop not found")
+		return
+	}
+	isLeft := func(v ssa.Value) bool {
+		hasLen, hasCount, hasSub := false, false, false
+		for x := range core.BackwardSlice(v, core.SliceOpts{}) {
+			if fieldLoadName(x) == "Length" {
+				hasLen = true
+			}
+			if c, ok := x.(*ssa.Call); ok {
+				if f := c.Common().StaticCallee(); f != nil && f.Name() == "ReadCount" {
+					hasCount = true
+				}
+			}
+			if b, ok := x.(*ssa.BinOp); ok && b.Op == token.SUB {
+				hasSub = true
+			}
+		}
+		return hasLen && hasCount && hasSub
+	}
+	found := 0
+	for b := range loop.Blocks {
+		ifi, ok := b.Instrs[len(b.Instrs)-1].(*ssa.If)
+		if !ok {
+			continue
+		}
+		exits := !loop.Blocks[b.Succs[0]] || !loop.Blocks[b.Succs[1]]
+		bo, isB := ifi.Cond.(*ssa.BinOp)
+		if !exits || !isB {
+			continue
+		}
+		left, k, op := bo.X, bo.Y, bo.Op
+		if _, isC := ssaConstInt(left); isC {
+			left, k = k, left
+			op = map[token.Token]token.Token{token.LSS: token.GTR, token.LEQ: token.GEQ, token.GTR: token.LSS, token.GEQ: token.LEQ, token.EQL: token.EQL, token.NEQ: token.NEQ}[op]
+		}
+		c, isC := ssaConstInt(k)
+		if !isC || !isLeft(left) {
+			continue
+		}
+		found++
+		// which way does "go on" point?
+		goOnTrue := loop.Blocks[b.Succs[0]]
+		eval := func(l int64) bool {
+			var r bool
+			switch op {
+			case token.GTR:
+				r = l > c
+			case token.GEQ:
+				r = l >= c
+			case token.LSS:
+				r = l < c
+			case token.LEQ:
+				r = l <= c
+			case token.NEQ:
+				r = l != c
+			case token.EQL:
+				r = l == c
+			}
+			return r == goOnTrue
+		}
+		bad := ""
+		for l := int64(0); l <= 3; l++ {
+			if eval(l) {
+				bad = fmt.Sprintf("with %d octet(s) left in the set (padding) the loop decodes another record", l)
+			}
+		}
+		if bad == "" && !eval(5) {
+			bad = "with 5 octets left in the set the loop stops: records are dropped"
+		}
+		rr.Check(bad == "", core.FuncName(fn)+":padding-bound", bo.Pos(), "stops with 0..3 octets left in the set, goes on with 5", bad+": padding is read as a record (and the following sets are misparsed), or records are lost")
+	}
+	if found == 0 {
+		rr.Undecided(core.FuncName(fn)+":padding-bound", fn.Pos(), "no exit test of the record loop on the octets left in the set (declared length minus consumed) found")
 	}
 }
